@@ -77,6 +77,8 @@ def run(tier, seed, rep, replay=None):
         for hs in seeds:
             jobs.append({"yaml_text": ytext, "texts": True, "hashseed": hs}); meta.append((i, f"hashseed={hs}"))
         jobs.append({"yaml_text": ytext, "texts": True, "cwd": "other", "hashseed": 5}); meta.append((i, "cwd"))
+        # the same description stored under another file name (a variant name that extends the network's name)
+        jobs.append({"yaml_text": ytext, "texts": True, "cfg_name": str(d.get("name", "x")) + "_variant.yml"}); meta.append((i, "config-file-name"))
         for pk in range(2 if tier == "quick" else 4):
             jobs.append({"yaml_text": yamlout.text(d, random.Random(seed * 1000 + i * 10 + pk), permute=True), "texts": True,
                          "hashseed": 11 + pk}); meta.append((i, f"key-permutation-{pk}"))
@@ -167,7 +169,7 @@ def run(tier, seed, rep, replay=None):
     rep.coverage.update({
         "evaluations": len(jobs) + len(hist_jobs) + len(qjobs), "distinct_nontrivial": len(distinct),
         "rule": "all shipped examples + generated stars (permuted declaration orders), meshes, a tree and a description whose "
-                "endpoint names extend each other; x hash seeds x working directory x mapping-key permutations x in-process "
+                "endpoint names extend each other; x hash seeds x working directory x config file name x mapping-key permutations x in-process "
                 "histories of length <= 3 x {full, --only-pkg, --only-top, stdout, stdout --only-pkg}; queries on endpoint "
                 "counts and routing widths; differential testing (labelled: no proof content); distinct = (description, context)",
         "samples": [{"tags": t} for _, t in descs[:3]],
